@@ -66,8 +66,9 @@ Lists(ob, qs, logged) ==
 ObsOK(ob, ln) ==
     /\ \A i \in DOMAIN Cfg.ids : ln.get[i] = ObjsT(ob[Cfg.ids[i]])
     /\ Lists(ob, Cfg.gridb, ln.lists)
-    /\ (ln.reopened => /\ \A i \in DOMAIN Cfg.ids : ln.rget[i] = ObjsT(ob[Cfg.ids[i]])
-                       /\ Lists(ob, Cfg.gridb, ln.rlists))
+    /\ ((ln.reopened /\ ~ln.rsame) =>       \* rsame: byte-identical to get/lists above (driver-side comparison)
+           /\ \A i \in DOMAIN Cfg.ids : ln.rget[i] = ObjsT(ob[Cfg.ids[i]])
+           /\ Lists(ob, Cfg.gridb, ln.rlists))
     /\ (ln.full # <<>> => Lists(ob, Cfg.grid, ln.full))
 
 (* ---- drift level: the code-shaped model ---- *)
